@@ -85,6 +85,11 @@ def compare(node, d, path="decl"):
             return "%s: no declarator recorded" % path
         if ptr_list(dec) != d.ptrs:
             return "%s: pointer chain %r, written %r" % (path, ptr_list(dec), d.ptrs)
+        # the predicates the wrappers ask (how many * / & levels) are read off the same chain
+        nstar, nref = sum(1 for p in d.ptrs if p[0] == "*"), sum(1 for p in d.ptrs if p[0] == "&")
+        if (node.is_pointer(), node.is_reference(), node.is_indirect()) != (nstar, nref, nstar + nref):
+            return "%s: is_pointer / is_reference / is_indirect = %r, the declarator has %d '*' and %d '&'" % (
+                path, (node.is_pointer(), node.is_reference(), node.is_indirect()), nstar, nref)
         if dec.name != d.name:
             return "%s: name %r, written %r" % (path, dec.name, d.name)
         if dec.func is not None:
